@@ -38,6 +38,9 @@ def cases(ctx):
     for i, p in enumerate(ctx.family("G1")):
         if not C01.no_x(p) and i % (4 if ctx.quick else 1) == 0:
             yield {"op": "ternary", "c": p, "src": "G1x", "xconst": True}
+    for t1 in ("and", "or", "nand", "nor", "xor"):
+        for t2 in ("and", "or", "nand", "nor", "xnor"):
+            yield {"op": "ternary", "c": join_collision(t1, t2), "src": "JOIN"}
     for j in range(80 if ctx.quick else 1500):
         r = ctx.rng("C10g3", j)
         c = gen.rand_circuit(r, n_in=r.randint(1, 5), n_gates=r.randint(2, 10), max_fanin=4, consts=0.5, out_is_input=0.2)
@@ -52,6 +55,20 @@ def cases(ctx):
                 ren = {b: a + "_X", d: r.choice([a + "_x_in_fi", a + "_is_0", a + "_is_1", a + "_not_x", a + "_0_not_in_fi", a + "_X_0"])}
                 nx.relabel_nodes(c.graph, ren, copy=False)
                 yield {"op": "ternary", "c": proj(c), "src": "NAMES"}
+
+
+def join_collision(t1, t2):
+    """Two gates whose different operand sets give the same string when the sorted names are joined with `_`."""
+    import networkx as nx
+    from ..proj import proj_graph
+
+    g = nx.DiGraph()
+    for n in ("a_in", "sel", "a", "in_sel"):
+        g.add_node(n, type="input", output=False)
+    g.add_node("g1", type=t1, output=True)
+    g.add_node("g2", type=t2, output=True)
+    g.add_edges_from([("a_in", "g1"), ("sel", "g1"), ("a", "g2"), ("in_sel", "g2")])
+    return proj_graph(g, "join")
 
 
 def run_case(case, ctx):
